@@ -2136,9 +2136,10 @@ impl<'store> FindTextSelectionsIter<'store> {
         match self.operator {
             TextSelectionOperator::Embeds { .. } => {
                 for reftextselection in self.refset.iter() {
+                    //(end + 1 because a zero-width selection at the very end of the reference is embedded too)
                     self.textseliters.push((
                         self.resource
-                            .range(reftextselection.begin(), reftextselection.end()),
+                            .range(reftextselection.begin(), reftextselection.end() + 1),
                         true,
                     ));
                 }
@@ -2160,7 +2161,8 @@ impl<'store> FindTextSelectionsIter<'store> {
                 ));
             }
             TextSelectionOperator::After { limit, .. } => {
-                //self comes after found items, so find items before self:
+                //self comes after found items, so find items that END before (or at) the begin of self,
+                //the limit constrains the distance between that end and the begin of self
                 let begin = if let Some(limit) = limit {
                     if limit >= self.refset.begin().unwrap() {
                         0
@@ -2171,32 +2173,35 @@ impl<'store> FindTextSelectionsIter<'store> {
                     0
                 };
                 self.textseliters.push((
-                    self.resource.range(begin, self.refset.begin().unwrap()),
-                    true,
+                    self.resource
+                        .range(begin, self.refset.begin().unwrap() + 1),
+                    false, //search backwards!! end must be in range above
                 ));
             }
             TextSelectionOperator::Succeeds {
                 allow_whitespace, ..
             } => {
+                //self succeeds the found items: these end where self begins, or up to WHITESPACE_LIMIT before that
+                let begin = self.refset.begin().unwrap();
                 self.textseliters.push((
                     self.resource.range(
-                        self.refset.begin().unwrap(),
-                        self.refset.begin().unwrap()
-                            + if allow_whitespace {
-                                WHITESPACE_LIMIT + 1
-                            } else {
-                                1
-                            },
+                        if allow_whitespace {
+                            begin.saturating_sub(WHITESPACE_LIMIT)
+                        } else {
+                            begin
+                        },
+                        begin + 1,
                     ),
                     false, //search backwards!! end must be in range above
                 ));
             }
             TextSelectionOperator::Before { limit, .. } => {
                 //self comes before found items, so find items after self:
+                //(+ 1 because the end of range() is exclusive)
                 let end = if let Some(limit) = limit {
-                    self.refset.end().unwrap() + limit
+                    self.refset.end().unwrap() + limit + 1
                 } else {
-                    self.resource.textlen()
+                    self.resource.textlen() + 1
                 };
                 self.textseliters
                     .push((self.resource.range(self.refset.end().unwrap(), end), true));
@@ -2228,15 +2233,17 @@ impl<'store> FindTextSelectionsIter<'store> {
                         } else {
                             0
                         };
-                        self.textseliters
-                            .push((self.resource.range(begin, reftextselection.end()), true));
+                        self.textseliters.push((
+                            self.resource.range(begin, reftextselection.end() + 1),
+                            true,
+                        ));
                     } else {
                         let mut end = reftextselection.end() + limit;
                         if end > self.resource.textlen() {
                             end = self.resource.textlen();
                         }
                         self.textseliters.push((
-                            self.resource.range(reftextselection.end(), end),
+                            self.resource.range(reftextselection.end(), end + 1),
                             false, //search backwards!!
                         ));
                     }
@@ -2246,12 +2253,20 @@ impl<'store> FindTextSelectionsIter<'store> {
                 let halfway = self.resource.textlen() / 2;
                 for reftextselection in self.refset.iter() {
                     if reftextselection.begin() <= halfway {
-                        self.textseliters
-                            .push((self.resource.range(0, reftextselection.end()), true));
-                    } else {
                         self.textseliters.push((
-                            self.resource
-                                .range(reftextselection.end(), self.resource.textlen()),
+                            self.resource.range(0, reftextselection.end() + 1),
+                            true,
+                        ));
+                    } else {
+                        //selections that embed the reference end at or after its end,
+                        //selections that merely overlap with it may already end right after its begin
+                        let begin = if let TextSelectionOperator::Overlaps { .. } = self.operator {
+                            reftextselection.begin()
+                        } else {
+                            reftextselection.end()
+                        };
+                        self.textseliters.push((
+                            self.resource.range(begin, self.resource.textlen() + 1),
                             false, //search backwards!!
                         ));
                     }
